@@ -27,7 +27,7 @@ impl Property for C21Prop {
         mode_name(mode)
     }
     fn rule(&self) -> &'static str {
-        "one run = two honest replicas with up to ~100 operations per side, transport capacity drawn from {1,2,4,16,64,512,unbounded} messages, no other fault; non-trivial = both sides have something to send; distinct = distinct trace fingerprint"
+        "one run = two honest replicas with up to ~100 operations per side, transport capacity drawn from {1,2,4,16,64,512,unbounded} messages, in a quarter of the runs one concurrent prune of a log, no other fault; non-trivial = both sides have something to send; distinct = distinct trace fingerprint"
     }
     fn components_real(&self) -> Vec<&'static str> {
         vec!["p2panda_sync::protocols::LogSync (select! send/receive loop)", "p2panda_sync::protocols::TopicLogSync", "p2panda_store::SqliteStore (StepExec modes)"]
@@ -53,7 +53,9 @@ impl Property for C21Prop {
             kind,
             capacity,
             world: WorldParams { max_authors: 3, max_logs_per_author: 2, max_ops_per_log: max_ops, prune_num: 0, body_kinds: 3 },
-            interference: false,
+            // Termination must not depend on the store standing still either: in a quarter of the
+            // runs one log is pruned concurrently (the fault model of C20).
+            interference: ctx::chance("interference", 1, 4),
             dedup_capacity: 1024,
             partial_scope: false,
         };
